@@ -86,12 +86,13 @@ CHECKS = {
              'included) and the full property is evaluated on the real reports with Spec.sem as oracle (valid set = derivable '
              'set over all 3^k choices, matrices, bound at the first choice, fin and strict on/off).',
         design_ref='DESIGN.md §5 C01, §10',
-        note='Side condition FuncOk (decidable): names non-empty, loop guard names not themselves used as loop-guard markers (guardsFresh), every variable of the reading found by the variable collector; success of the fuelled fixpoint is a hypothesis; numbering of alternatives via Spec.relabel.'),
+        note='Side condition FuncOk (decidable): names non-empty, loop guard names not themselves used as loop-guard markers (guardsFresh), every variable of the reading found by the variable collector; that the model run succeeds is a theorem (Mwp.func_total), not a hypothesis; numbering of alternatives via Spec.relabel.'),
     'C02': dict(
         technique='Lean 4 proof (function-level: infinite verdict iff no choice vector derives, both modes; via statement refinement, delta-graph ghost invariant + C11 collapse soundness, C04 exactness) + Lean spec oracle + differential correspondence',
         text='Proved on the model of Analysis.func (Props/C02): the function is reported infinite iff the pointwise calculus '
              'fails at every choice vector, in early-stop and run-to-completion mode alike (infinite_iff_no_derivation), the '
-             'verdict is mode independent, a finite verdict comes with a valid first choice which is a derivation. The '
+             'verdict is mode independent, a finite verdict comes with a valid first choice which is a derivation; a verdict always '
+             'exists (verdict_exists_and_is_exact: no hypothesis on the run, by func_total). The '
              'early-exit path is covered by a ghost invariant (every tuple inserted into the delta graph matches only failing '
              'vectors) and the C11 theorem. Every run compares the real verdict in both modes with "no choice derives" computed '
              'by Spec.sem in Lean on generated functions biased towards failing / jointly failing / nested loops, and diffs '
@@ -101,8 +102,8 @@ CHECKS = {
     'C05': dict(
         technique='Lean 4 proof (mutual structural induction over the syntax tree: Coverage model vs calculus reading) + bounded-exhaustive template correspondence',
         text='Proved: if the model of the syntax check reports full support then every statement is readable by the '
-             'calculus reading Spec.desugar, under three explicit exclusions each with a kernel-checked witness (nested '
-             'unary on a right-hand side = known finding; ++ on a constant; trees the C parser cannot produce). Controlling '
+             'calculus reading Spec.desugar, under two explicit exclusions each with a kernel-checked witness (++ on a '
+             'constant; trees the C parser cannot produce); nested unary operations no longer need an exclusion since the repair of Coverage.UnaryOp. Controlling '
              'expressions are not inspected by the syntax check at all (negative witness proved; known findings). Every '
              'run feeds the real Coverage verdict and the real analysis warnings for every statement form x position '
              'template to the Lean predicate and diffs the Coverage model (omit count, tree after ast_mod).',
@@ -190,15 +191,20 @@ CHECKS = {
         design_ref='DESIGN.md §5 C03',
         note='Shape (the property sentence) rather than numeric Jones-Kristiansen soundness; values are exact polynomials over naturals.'),
     'C06': dict(
-        technique='Lean 4 proof (totality of model components) + crash search on the real code over a mixed grammar, model agreement on raising',
-        text='Partial: proved on the model that loop discovery, variable collection, the delta graph (any history), choice '
-             'generation (well-formed input), the two loop corrections (under the graph invariant) and the analysis of every '
-             'loop-free supported statement never raise. Not proved: termination of the syntactic fixpoint (fuelled in the '
-             'model) and running time. Every run analyses pycparser-accepted files from the mixed grammar (supported, sugar, '
-             'edge forms, every unsupported kind) in function and loop mode x strict x fin with the real code under a time '
-             'limit, requires a JSON-serialisable result with every function present, and compares raising with the model.',
+        technique='Lean 4 proof (totality of the whole analysis model on supported functions; termination of the fixpoint loop by a canonical-form + lattice-height argument) + crash search on the real code over a mixed grammar, model agreement on raising',
+        text='Proved on the model: (1) the analysis of every supported function (any nesting of branches, while, do-while, '
+             'counted for; both modes) returns a result -- no Except.error branch (Diverged, IndexError, KeyError, ValueError '
+             'of corrections, delta graph, Choices.generate, infinity-flow report) is reachable (supported_function_never_raises, '
+             'supported_statement_never_raises); (2) the while-True loop of Relation.fixpoint stops after at most 4n^2+1 rounds '
+             'for every well-formed relation, whatever its polynomials (fixpoint_loop_stops, fixpoint_never_diverges); (3) loop '
+             'discovery, variable collection, the delta graph under any history, choice generation and the two corrections '
+             'are total. Not provable here: wall-clock time. For files with unsupported statements (outside the calculus '
+             'reading) the no-raise claim rests on the correspondence: every run analyses pycparser-accepted files from the '
+             'mixed grammar (supported, sugar, edge forms, every unsupported kind) in function and loop mode x strict x fin '
+             'with the real code under a time limit, requires a JSON-serialisable result with every function present, and '
+             'compares raising with the model.',
         design_ref='DESIGN.md §5 C06',
-        note='Timeouts are reported as exit 2, never as violations; fixpoint termination bound not proved.'),
+        note='Timeouts are reported as exit 2, never as violations. The theorems cover functions inside the calculus reading (FuncOk); the skipping of unsupported statements is covered by the C07 theorems and the differential runs.'),
     'C13': dict(
         technique='Lean 4 proof (write-set lemmas: what the in-place corrections can ever modify; diagonal lemma for fixpoints) + session / hash-seed exploration of the real process',
         text='Partial: proved at value level what makes Python aliasing harmless: the while correction only rewrites '
